@@ -21,4 +21,5 @@ pub mod conn;
 pub mod c06;
 pub mod pkt;
 pub mod c01;
+pub mod c03;
 pub mod c04;
